@@ -36,6 +36,10 @@ type c07Case struct {
 	// hostile ones (manifest size and position of the entry as a dimension:
 	// a receiver that checks large manifests in blocks / in parallel)
 	Pad int `json:"pad,omitempty"`
+	// Pre != "": state of the output directory before the transfer (something an
+	// earlier accepted transfer can leave behind) that makes one of the receiver's
+	// own file-system operations fail; see c07Prestate
+	Pre string `json:"pre,omitempty"`
 }
 
 // jailSnapshot records (kind, size, mtime, sha256) of everything under jail
@@ -310,7 +314,7 @@ func attackStrings(jail string, r *vk.Rng, extra int) [][2]string {
 }
 
 func runC07(e *Env) {
-	e.R.Rule = "a hostile sender script feeds the real RecvManifestMultiStream (both root-dir modes, resume on/off) over loopback QUIC, the legacy RecvManifest and RecvFile, and the app's hasResumeData/clearResumeData, with one attacker string in one field (manifest.root, item.rel_path of file and directory items, item.id, FileBegin.rel_path, file name, offered root name); the output directory is <jail>/a/out surrounded by canary files, directories and a foreign sidecar; monitor: snapshot (kind, size, mtime, sha256) of the jail minus out before vs after; a case counts when the string reached the receiver; distinct by (target, field, string, mode)"
+	e.R.Rule = "a hostile sender script feeds the real RecvManifestMultiStream (both root-dir modes, resume on/off) over loopback QUIC, the legacy RecvManifest and RecvFile, and the app's hasResumeData/clearResumeData, with one attacker string in one field (manifest.root, item.rel_path of file and directory items, item.id, FileBegin.rel_path, file name, offered root name): escaping strings, and well-formed names on which the receiver's own mkdir/create/rename fails (NAME_MAX boundary, names of its resume directory, sidecars and temp files, names of other items); plus harmless manifests received into an output directory where an earlier transfer left an entry of the wrong kind; the output directory is <jail>/a/out surrounded by canary files, directories and a foreign sidecar, the process's working directory is <cwdjail>/a/out with the same surroundings; monitor: snapshot (kind, size, mtime, sha256) of the jail minus out before vs after, and of the whole cwdjail after every case (cases during which it changed are run again alone in a fresh working directory and judged there); a case counts when the string reached the receiver; distinct by (target, field, string, mode, prior content)"
 	lp, err := vk.NewListenerPool(16, 3*time.Second)
 	if err != nil {
 		e.R.Inconcl("listener pool: " + err.Error())
@@ -318,9 +322,21 @@ func runC07(e *Env) {
 		return
 	}
 	defer lp.Close()
+	if abs, err := filepath.Abs(e.Work); err == nil {
+		e.Work = abs
+	}
+	watch, err := newC07CwdWatch(e.Work)
+	if err != nil {
+		e.R.Inconcl("working-directory jail: " + err.Error())
+		e.R.Require(false, "no working-directory jail")
+		return
+	}
+	defer watch.restore()
 	r := vk.NewRng(vk.Mix(e.Seed ^ vk.HashStr("c07"+e.Tier)))
 	probe := vk.TempDir(e.Work, "c07probe-")
 	strs := attackStrings(filepath.Join(probe, "jail"), r, e.Pick(40, 1500))
+	nHostile := len(strs)
+	strs = append(strs, c07FailStrings()...)
 	os.RemoveAll(probe)
 	var cases []c07Case
 	add := func(c c07Case) {
@@ -340,7 +356,7 @@ func runC07(e *Env) {
 		}
 		// the same entries at the very end of a manifest of several thousand
 		// entries (sizes around 4096 with every remainder modulo 4)
-		if strings.HasPrefix(s[0], "dotdot-") || s[0] == "absolute" || s[0] == "sibling-victim-dir" || s[0] == "mid-dotdot" || (e.Thorough() && !strings.HasPrefix(s[0], "mix-")) {
+		if strings.HasPrefix(s[0], "dotdot-") || s[0] == "absolute" || s[0] == "sibling-victim-dir" || s[0] == "mid-dotdot" || (e.Thorough() && !strings.HasPrefix(s[0], "mix-") && !strings.HasPrefix(s[0], "fsfail-")) {
 			for k, f := range []string{"item.rel_path(file)", "item.rel_path(dir)", "item.id", "item.id(empty-file)"} {
 				for _, pad := range []int{4093, 4094, 4095, 4096, 8190} {
 					add(c07Case{Target: "multistream", Field: f, Str: s[1], StrName: s[0], NoRoot: (k+pad)%2 == 0, Resume: true, Pad: pad})
@@ -351,19 +367,24 @@ func runC07(e *Env) {
 		add(c07Case{Target: "app-clear", Field: "root", Str: s[1], StrName: s[0]})
 		add(c07Case{Target: "app-has", Field: "root", Str: s[1], StrName: s[0]})
 	}
-	e.R.SetExtra("attack_strings", len(strs))
+	for _, c := range c07PrestateCases() {
+		add(c)
+	}
+	e.R.SetExtra("attack_strings", nHostile)
+	e.R.SetExtra("fs_failure_strings", len(strs)-nHostile)
 	var mu sync.Mutex
 	byField := map[string]int{}
 	escapes := map[string]int{}
-	vk.ParallelDo(len(cases), 16, func(i int) {
-		c := cases[i]
+	// exec runs one case against a fresh jail and returns what changed outside
+	// the output directory inside that jail
+	exec := func(c c07Case) (d []string, note string, ok bool) {
 		base := vk.TempDir(e.Work, "c07-")
 		defer os.RemoveAll(base)
 		jail, outDir := buildJail(base)
 		// the absolute attack strings were built for the probe jail: rebase them
 		c.Str = strings.ReplaceAll(c.Str, filepath.Join(probe, "jail"), jail)
+		c07Prestate(outDir, c)
 		before := jailSnapshot(jail, outDir)
-		note := ""
 		switch c.Target {
 		case "multistream":
 			l := lp.Get()
@@ -371,7 +392,7 @@ func runC07(e *Env) {
 			lp.Put(l)
 			if err != nil {
 				e.R.Inconcl(c.ID + ": pair: " + err.Error())
-				return
+				return nil, "", false
 			}
 			ctx, cancel := context.WithTimeout(context.Background(), 6*time.Second)
 			rdone := make(chan error, 1)
@@ -383,7 +404,7 @@ func runC07(e *Env) {
 			_ = p.Dial.Close()
 			select {
 			case err := <-rdone:
-				note = errS(err)
+				note = c07ErrS(err)
 			case <-time.After(8 * time.Second):
 				note = "receiver did not return"
 			}
@@ -406,37 +427,60 @@ func runC07(e *Env) {
 				_, err = transfer.RecvFile(ctx, in, outDir)
 			}
 			cancel()
-			note = errS(err)
+			note = c07ErrS(err)
 		case "app-clear":
-			note = errS(app.VerifClearResumeData(outDir, c.Str))
+			note = c07ErrS(app.VerifClearResumeData(outDir, c.Str))
 		case "app-has":
 			note = fmt.Sprint(app.VerifHasResumeData(outDir, c.Str))
 		}
 		after := jailSnapshot(jail, outDir)
-		d := diffSnap(before, after)
+		d = diffSnap(before, after)
+		for k := range d {
+			d[k] = strings.Replace(d[k], jail, "<jail>", 1)
+		}
+		return d, note, true
+	}
+	violKey := func(c c07Case) string {
+		mode := "rooted"
+		if c.NoRoot {
+			mode = "norootdir"
+		}
+		key := fmt.Sprintf("escape:%s:%s", c.Target, c.Field)
+		if c.Target == "multistream" {
+			key += ":" + mode
+		}
+		if c.Pad > 0 {
+			key += ":at-the-end-of-a-large-manifest"
+		}
+		if c.Pre != "" {
+			key += ":output-directory-with-" + c.Pre
+		}
+		return key
+	}
+	vk.ParallelDo(len(cases), 16, func(i int) {
+		c := cases[i]
+		watch.begin(i)
+		d, note, ok := exec(c)
+		watch.end(i)
+		if !ok {
+			return
+		}
 		e.R.Eval()
-		e.R.Distinct(fmt.Sprintf("%s/%s/%s/nr%v/res%v/pad%d", c.Target, c.Field, c.StrName, c.NoRoot, c.Resume, c.Pad))
+		e.R.Distinct(fmt.Sprintf("%s/%s/%s/nr%v/res%v/pad%d/pre:%s", c.Target, c.Field, c.StrName, c.NoRoot, c.Resume, c.Pad, c.Pre))
 		if c.Pad > 0 {
 			e.R.Count("large_manifest_cases")
+		}
+		if c.Pre != "" {
+			e.R.Count("prestate_cases")
+		}
+		if strings.HasPrefix(c.StrName, "fsfail-") {
+			e.R.Count("fs_failure_string_cases")
 		}
 		mu.Lock()
 		byField[c.Target+":"+c.Field]++
 		mu.Unlock()
 		if len(d) > 0 {
-			for k := range d {
-				d[k] = strings.Replace(d[k], jail, "<jail>", 1)
-			}
-			mode := "rooted"
-			if c.NoRoot {
-				mode = "norootdir"
-			}
-			key := fmt.Sprintf("escape:%s:%s", c.Target, c.Field)
-			if c.Target == "multistream" {
-				key += ":" + mode
-			}
-			if c.Pad > 0 {
-				key += ":at-the-end-of-a-large-manifest"
-			}
+			key := violKey(c)
 			mu.Lock()
 			escapes[key]++
 			mu.Unlock()
@@ -445,9 +489,54 @@ func runC07(e *Env) {
 			e.R.Sample(map[string]any{"case": c, "receiver": note, "outside_changes": 0})
 		}
 	})
+	// Monitor for the process's working directory (shared by the parallel cases):
+	// every case during or shortly after which the working-directory jail changed
+	// is run again alone, in a fresh working directory, and judged there
+	transfer.FlushAllFlushers()
+	watch.finish()
+	cand := watch.candidates()
+	e.R.SetExtra("cwd_monitor_snapshots", watch.snapshots)
+	e.R.SetExtra("cwd_changes_seen_in_parallel_phase", watch.dirtyList())
+	e.R.SetExtra("cwd_candidates_rerun_alone", len(cand))
+	confirmed := 0
+	for _, i := range cand {
+		c := cases[i]
+		transfer.FlushAllFlushers()
+		if err := watch.fresh(); err != nil {
+			e.R.Inconcl(c.ID + ": fresh working directory: " + err.Error())
+			continue
+		}
+		before := jailSnapshot(watch.jail, "")
+		d, note, ok := exec(c)
+		transfer.FlushAllFlushers()
+		after := jailSnapshot(watch.jail, "")
+		if !ok {
+			continue
+		}
+		e.R.Count("cwd_reruns")
+		wd := diffSnap(before, after)
+		if len(wd) == 0 {
+			continue
+		}
+		confirmed++
+		for k := range wd {
+			wd[k] = strings.Replace(wd[k], watch.jail, "<cwdjail>", 1)
+		}
+		key := violKey(c)
+		mu.Lock()
+		escapes[key]++
+		mu.Unlock()
+		e.R.Violate(key, fmt.Sprintf("attacker string %q (%s) in %s, output directory %s: the receiver touched entries in or around the process's working directory <cwdjail>/a/out (not the output directory): %v (receiver: %s)", c.Str, c.StrName, c.Field, c07PreText(c.Pre), wd, note), c, map[string]any{"diff_around_working_directory": wd, "diff_around_output_directory": d})
+	}
+	if dl := watch.dirtyList(); len(dl) > 0 && confirmed == 0 {
+		e.R.Violate("escape:unattributed:process-working-directory", fmt.Sprintf("during the parallel phase entries in or around the process's working directory (never the output directory of any case) were touched: %v; none of the %d cases that ran at that time reproduced it alone", dl, len(cand)), map[string]any{"candidates": len(cand)}, map[string]any{"diff_around_working_directory": dl})
+	}
 	e.R.SetExtra("cases_by_target_field", byField)
 	e.R.SetExtra("escapes_by_key", escapes)
 	e.R.Require(e.R.Counter("large_manifest_cases") >= e.Pick(60, 400), "too few cases with the hostile entry at the end of a large manifest")
+	e.R.Require(e.R.Counter("prestate_cases") >= 60, "too few cases with an output directory whose earlier content makes the receiver's own file operations fail")
+	e.R.Require(e.R.Counter("fs_failure_string_cases") >= 200, "too few cases with well-formed names that make the receiver's own file operations fail")
+	e.R.Require(watch.snapshots >= len(cases), "the working-directory monitor did not run after every case")
 	e.R.Require(e.R.DistinctCount() >= e.Pick(1000, 20000), fmt.Sprintf("only %d distinct cases", e.R.DistinctCount()))
 	_ = io.EOF
 }
